@@ -59,13 +59,16 @@ func c17SP() *saml2.SAMLServiceProvider {
 	return sp
 }
 
-var c17Ops = []string{"SigningContext", "BuildAuthRequest", "BuildLogoutRequestDocument", "BuildLogoutResponseDocument", "BuildAuthURLRedirect", "ValidateEncodedResponse(A)", "ValidateEncodedResponse(B)", "RetrieveAssertionInfo(A)", "Metadata", "ValidateLogoutRequest", "GetSigningCertBytes", "BuildAuthBodyPost(relay-one)", "BuildAuthBodyPost(relay-two)", "BuildAuthURL(relay-one)", "BuildLogoutBodyPost", "BuildLogoutResponseBodyPost", "BuildLogoutURLRedirect", "ValidateLogoutResponse", "DecodeUnverifiedBaseResponse", "ValidateEncodedResponse(E)"}
+var c17Ops = []string{"SigningContext", "BuildAuthRequest", "BuildLogoutRequestDocument", "BuildLogoutResponseDocument", "BuildAuthURLRedirect", "ValidateEncodedResponse(A)", "ValidateEncodedResponse(B)", "RetrieveAssertionInfo(A)", "Metadata", "ValidateLogoutRequest", "GetSigningCertBytes", "BuildAuthBodyPost(relay-one)", "BuildAuthBodyPost(relay-two)", "BuildAuthURL(relay-one)", "BuildLogoutBodyPost", "BuildLogoutResponseBodyPost", "BuildLogoutURLRedirect", "ValidateLogoutResponse", "DecodeUnverifiedBaseResponse", "ValidateEncodedResponse(E)", "ValidateEncodedResponse(X)"}
 
 var (
 	c17Once                        sync.Once
 	c17MsgA, c17MsgB, c17MsgLogout string
 	c17MsgE                        string // a Response-signed message whose assertion is encrypted (RSA-OAEP, AES-GCM)
 	c17TupA, c17TupB               string
+	// a Response-signed message whose bearer confirmation expired a minute before the SP clock
+	// (its Conditions are still valid): rejected, whatever else is being validated meanwhile
+	c17MsgX, c17ErrX string
 )
 
 func c17Init() {
@@ -88,6 +91,13 @@ func c17Init() {
 		e.Sign = idp.SignSpec{Key: "K3"}
 		e.Assertions[0].Encrypt = &idp.EncSpec{}
 		c17MsgE = idp.RenderResponse(e)
+		x := idp.DefaultResponse(1)
+		uniq(&x, "c17x")
+		x.Sign = idp.SignSpec{Key: "K3"}
+		x.Assertions[0].SCDNotOnOrAfter = idp.TS(world.T0.Add(-time.Minute))
+		c17MsgX = idp.RenderResponse(x)
+		_, rx := validateResponse(c17SP(), c17MsgX)
+		c17ErrX = rx.Err.Text
 		ra, _ := validateResponse(c17SP(), c17MsgA)
 		rb, _ := validateResponse(c17SP(), c17MsgB)
 		c17TupA, c17TupB = oracle.FromResponse(ra).Key(), oracle.FromResponse(rb).Key()
@@ -144,8 +154,11 @@ func c17Do(sp *saml2.SAMLServiceProvider, op int) (o c17Obs) {
 		if err != nil {
 			o.Err = err.Error()
 		}
-	case "ValidateEncodedResponse(A)", "ValidateEncodedResponse(B)", "ValidateEncodedResponse(E)":
+	case "ValidateEncodedResponse(A)", "ValidateEncodedResponse(B)", "ValidateEncodedResponse(E)", "ValidateEncodedResponse(X)":
 		m := c17MsgA
+		if strings.HasSuffix(c17Ops[op], "(X)") {
+			m = c17MsgX
+		}
 		if strings.HasSuffix(c17Ops[op], "(B)") {
 			m = c17MsgB
 		}
@@ -248,6 +261,12 @@ func c17Do(sp *saml2.SAMLServiceProvider, op int) (o c17Obs) {
 func c17Judge(o c17Obs) string {
 	if o.Panic != "" {
 		return "panic: " + o.Panic
+	}
+	if c17Ops[o.Op] == "ValidateEncodedResponse(X)" {
+		if o.Err == "" || o.Err != c17ErrX {
+			return fmt.Sprintf("the expired response gave error %q (accepted: %q), alone it is rejected with %q", o.Err, o.Text, c17ErrX)
+		}
+		return ""
 	}
 	if o.Err != "" {
 		return "error: " + o.Err
@@ -447,6 +466,8 @@ func c17Scenarios(thorough bool) []c17Scenario {
 		{"BuildLogoutBodyPost || BuildLogoutResponseBodyPost;BuildLogoutURLRedirect", [][]int{{o("BuildLogoutBodyPost")}, {o("BuildLogoutResponseBodyPost"), o("BuildLogoutURLRedirect")}}},
 		{"Validate(E) || Validate(E)", [][]int{{o("ValidateEncodedResponse(E)")}, {o("ValidateEncodedResponse(E)")}}},
 		{"Validate(E) || Validate(A);Validate(E)", [][]int{{o("ValidateEncodedResponse(E)")}, {o("ValidateEncodedResponse(A)"), o("ValidateEncodedResponse(E)")}}},
+		{"Validate(expired) || Validate(A)", [][]int{{o("ValidateEncodedResponse(X)")}, {o("ValidateEncodedResponse(A)")}}},
+		{"Validate(expired) || RetrieveAssertionInfo(A);Validate(expired)", [][]int{{o("ValidateEncodedResponse(X)")}, {o("RetrieveAssertionInfo(A)"), o("ValidateEncodedResponse(X)")}}},
 		{"3 threads: ValidateLogoutResponse || DecodeUnverifiedBaseResponse || ValidateLogoutRequest", [][]int{{o("ValidateLogoutResponse")}, {o("DecodeUnverifiedBaseResponse")}, {o("ValidateLogoutRequest")}}},
 	}
 	if thorough {
@@ -515,6 +536,10 @@ func c17Replay(raw json.RawMessage) ([]string, string) {
 	json.Unmarshal(raw, &probe)
 	if probe.History != nil {
 		return c17HistoryExec(probe.History)
+	}
+	var in c17Input
+	if json.Unmarshal(raw, &in) == nil && in.Input {
+		return c17InputExec(in)
 	}
 	var c c17Case
 	if err := json.Unmarshal(raw, &c); err != nil {
@@ -802,6 +827,125 @@ func c17HistoryExec(hist []int) (keys []string, detail string) {
 	return dedupe(keys), "history " + strings.Join(names, " ; ") + detail
 }
 
+// ---------- (d) inputs handed to the validators stay as they were ----------
+
+// c17Input is one decoded message handed to an exported validator that takes a struct: the
+// profile-fault dimensions of C03 (n assertions), optionally with one time bound padded with
+// whitespace (kept as written by encoding/xml), or a decoded logout message.
+type c17Input struct {
+	Input bool    `json:"decoded_input"`
+	Kind  string  `json:"kind"` // Response | LogoutRequest | LogoutResponse
+	D     c03Dims `json:"dims,omitempty"`
+	// Pad: 0 none; otherwise bound (1 NotBefore, 2 Conditions NotOnOrAfter, 3 SubjectConfirmationData
+	// NotOnOrAfter) + 3*(style-1), style 1 leading space, 2 trailing space, 3 newline around, 4 tab+space around
+	Pad    int `json:"padded_bound,omitempty"`
+	Logout int `json:"logout_variant,omitempty"` // 0 genuine, 1 wrong destination, 2 no issuer, 3 non-success status / no NameID
+}
+
+func c17Pad(v string, style int) string {
+	switch style {
+	case 1:
+		return " " + v
+	case 2:
+		return v + " "
+	case 3:
+		return "\n" + v + "\n"
+	}
+	return "\t " + v + " \t"
+}
+
+func c17InputExec(c c17Input) (keys []string, detail string) {
+	sp := c17SP()
+	changed := func(what string, v interface{}, call func()) {
+		before := snapshotOf(v)
+		p := guard(call)
+		if after := snapshotOf(v); after != before {
+			keys = append(keys, "C17/input-modified-by/"+what)
+			i := 0
+			for i < len(before) && i < len(after) && before[i] == after[i] {
+				i++
+			}
+			detail += fmt.Sprintf(" | %s changed the struct it was given (panic=%q): ...%.120q became ...%.120q", what, p, before[max(0, i-40):], after[max(0, i-40):])
+		}
+	}
+	switch c.Kind {
+	case "Response":
+		spec := c03Spec(c.D, 0)
+		if c.Pad > 0 && len(spec.Assertions) > 0 {
+			a := &spec.Assertions[0]
+			style := (c.Pad-1)/3 + 1
+			switch (c.Pad - 1) % 3 {
+			case 0:
+				a.NotBefore = c17Pad(a.NotBefore, style)
+			case 1:
+				a.NotOnOrAfter = c17Pad(a.NotOnOrAfter, style)
+			case 2:
+				a.SCDNotOnOrAfter = c17Pad(a.SCDNotOnOrAfter, style)
+			}
+		}
+		raw, _ := base64Decode(idp.RenderResponse(spec))
+		decoded := &types.Response{}
+		if err := xmlUnmarshal(raw, decoded); err != nil {
+			return nil, "not decodable: " + err.Error()
+		}
+		detail = fmt.Sprintf("%+v", c)
+		changed("Validate", decoded, func() { sp.Validate(decoded) })
+		for i := range decoded.Assertions {
+			a := &decoded.Assertions[i]
+			changed("VerifyAssertionConditions", a, func() { sp.VerifyAssertionConditions(a) })
+		}
+	default:
+		l := idp.DefaultLogout(c.Kind)
+		switch c.Logout {
+		case 1:
+			l.Destination = "https://evil.example.com/slo"
+		case 2:
+			l.Issuer = idp.Absent
+		case 3:
+			l.Status, l.NameID = "urn:oasis:names:tc:SAML:2.0:status:Responder", idp.Absent
+		}
+		raw, _ := base64Decode(idp.RenderLogout(l))
+		detail = fmt.Sprintf("%+v", c)
+		if c.Kind == "LogoutRequest" {
+			decoded := &saml2.LogoutRequest{}
+			if err := xmlUnmarshal(raw, decoded); err != nil {
+				return nil, "not decodable: " + err.Error()
+			}
+			changed("ValidateDecodedLogoutRequest", decoded, func() { sp.ValidateDecodedLogoutRequest(decoded) })
+		} else {
+			decoded := &types.LogoutResponse{}
+			if err := xmlUnmarshal(raw, decoded); err != nil {
+				return nil, "not decodable: " + err.Error()
+			}
+			changed("ValidateDecodedLogoutResponse", decoded, func() { sp.ValidateDecodedLogoutResponse(decoded) })
+		}
+	}
+	return dedupe(keys), detail
+}
+
+func c17Inputs() []c17Input {
+	var out []c17Input
+	for n := 1; n <= 2; n++ {
+		g := c03Gen(n)
+		mc.Enumerate(1, nil, func(ch *mc.Chooser) { out = append(out, c17Input{Input: true, Kind: "Response", D: g(ch)}) })
+	}
+	for pad := 1; pad <= 12; pad++ {
+		for n := 1; n <= 2; n++ {
+			d := c03Dims{N: n}
+			for i := 0; i < n; i++ {
+				d.A = append(d.A, [4]int{})
+			}
+			out = append(out, c17Input{Input: true, Kind: "Response", D: d, Pad: pad})
+		}
+	}
+	for _, k := range []string{"LogoutRequest", "LogoutResponse"} {
+		for v := 0; v < 4; v++ {
+			out = append(out, c17Input{Input: true, Kind: k, Logout: v})
+		}
+	}
+	return out
+}
+
 // ---------- (c) free-running race pass ----------
 
 // c17RacePass is the body of the -race binary: the scenario bodies on real goroutines.
@@ -835,7 +979,7 @@ func c17Run(r *mc.Run) {
 	if r.Thorough() {
 		bound = 3
 	}
-	r.Rule = "(a) E-SCHED: every interleaving with <= 2 (quick) / <= 3 (thorough) preemptions (unbounded for the first-use race) of 14 (thorough 16) scenarios of 2-3 managed goroutines x 1-2 operations out of 20 (incl. a Response with an encrypted assertion) on one shared SP with a non-default algorithm and canonicaliser, on an overlay build whose scheduling points are the sync shim operations plus a yield before every statement touching a written package-level variable or written SAMLServiceProvider field; oracle: no deadlock/panic, every call returns what it returns alone on a fresh SP, SigningContext fully configured when observed. (b) E-BFS over call histories: all sequences up to depth 3 (quick) / 4 (thorough) over 11 operations incl. scribbling over the previous result (every field, slice element and map entry reachable from it, in place); deep reflective snapshot of the configuration unchanged, outcome equal to a fresh instance and to the outcome of the same call before any result was written to (package-level state shared by all instances), and every result handed out earlier still unchanged after every later call. (c) free-running -race pass of the same bodies (sampling; supporting). non-trivial = an execution with at least one preemption, or a history of length >= 2; distinct = distinct schedule / history"
+	r.Rule = "(a) E-SCHED: every interleaving with <= 2 (quick) / <= 3 (thorough) preemptions (unbounded for the first-use race) of 17 (thorough 19) scenarios of 2-3 managed goroutines x 1-2 operations out of 21 (incl. a Response with an encrypted assertion and a Response whose bearer confirmation has expired, which must be rejected whatever runs beside it) on one shared SP with a non-default algorithm and canonicaliser, on an overlay build whose scheduling points are the sync shim operations plus a yield before every statement touching a written package-level variable or written SAMLServiceProvider field; oracle: no deadlock/panic, every call returns what it returns alone on a fresh SP, SigningContext fully configured when observed. (b) E-BFS over call histories: all sequences up to depth 3 (quick) / 4 (thorough) over 11 operations incl. scribbling over the previous result (every field, slice element and map entry reachable from it, in place); deep reflective snapshot of the configuration unchanged, outcome equal to a fresh instance and to the outcome of the same call before any result was written to (package-level state shared by all instances), and every result handed out earlier still unchanged after every later call. (c) free-running -race pass of the same bodies (sampling; supporting). (d) the exported validators that take a decoded struct (Validate, VerifyAssertionConditions, ValidateDecodedLogoutRequest/Response) on every Response within one profile fault of conforming (1-2 assertions, C03's menu), on Responses with one time bound padded by whitespace (3 bounds x 4 paddings), and on 4 variants of each logout message: a deep reflective snapshot of the struct is unchanged by the call. non-trivial = an execution with at least one preemption, or a history of length >= 2; distinct = distinct schedule / history"
 	r.Assume("scheduling points are sufficient only together with the race pass (c), which is sampling", "the overlay is regenerated from /repo's working tree on every run (instr report in evidence)")
 	if b, err := os.ReadFile(os.Getenv("VERIF_INSTR_REPORT")); err == nil {
 		var rep map[string]interface{}
@@ -938,6 +1082,21 @@ func c17Run(r *mc.Run) {
 		}
 		for _, k := range keys {
 			r.Violation(k, detail, map[string]interface{}{"history": hists[i]})
+		}
+	}
+
+	// (d) decoded inputs
+	ins := c17Inputs()
+	r.Set("decoded_inputs", len(ins))
+	for _, in := range ins {
+		keys, detail := c17InputExec(in)
+		r.Eval(1)
+		r.State(1)
+		r.Transition(1)
+		r.Bucket("decoded-input")
+		r.Nontrivial(fmt.Sprintf("%+v", in))
+		for _, k := range keys {
+			r.Violation(k, detail[:min(len(detail), 1500)], in)
 		}
 	}
 
